@@ -8,6 +8,7 @@ import Driver.PC
 import Driver.Match
 import Driver.Bus
 import Driver.Auth
+import Driver.Acc
 /-
   Line-protocol driver over Dbus.Model (compiled; imports no proofs and no Mathlib).
 
@@ -42,6 +43,7 @@ structure Stats where
   pc : Dbus.Model.PC.State := {}
   bus : BusState := {}
   auth : AuthState := {}
+  acc : Dbus.Model.Accept.Acc := { max := 1 }
 
 def handle (st : Stats) (line : String) : Stats × Option String :=
   let toks := (line.trimAscii.toString.splitOn " ").filter (· ≠ "")
@@ -56,6 +58,9 @@ def handle (st : Stats) (line : String) : Stats × Option String :=
   | "auth" :: rest =>
     let (b, ans) := authCmd st.auth rest
     ({ st with auth := b, bad := if ans = "bad-op" then st.bad + 1 else st.bad }, some ans)
+  | "acc" :: rest =>
+    let (b, ans) := accCmd st.acc rest
+    ({ st with acc := b, bad := if ans = "bad-op" then st.bad + 1 else st.bad }, some ans)
   | "pc" :: rest =>
     let (p, ans) := pcCmd st.pc rest
     ({ st with pc := p, bad := if ans = "bad-op" then st.bad + 1 else st.bad }, some ans)
